@@ -21,52 +21,175 @@ end
 
 theorem Derives.trans {G : CFG} {u v w : List Sym} (h₁ : G.Derives u v) (h₂ : G.Derives v w) :
     G.Derives u w := by
-  sorry
+  induction h₁ with
+  | refl _ => exact h₂
+  | step hp _ ih => exact .step hp (ih h₂)
 
 /-- derivations can be done inside a context -/
 theorem Derives.context {G : CFG} {u v : List Sym} (x y : List Sym) (h : G.Derives u v) :
     G.Derives (x ++ u ++ y) (x ++ v ++ y) := by
-  sorry
+  induction h with
+  | refl _ => exact .refl _
+  | @step u v body w h hp _ ih =>
+    have e1 : x ++ (u ++ [Sym.var h] ++ v) ++ y = (x ++ u) ++ [Sym.var h] ++ (v ++ y) := by
+      simp only [List.append_assoc]
+    have e2 : x ++ (u ++ body ++ v) ++ y = (x ++ u) ++ body ++ (v ++ y) := by
+      simp only [List.append_assoc]
+    rw [e1]
+    rw [e2] at ih
+    exact .step hp ih
 
 theorem Derives.append {G : CFG} {u u' v v' : List Sym} (h₁ : G.Derives u u') (h₂ : G.Derives v v') :
     G.Derives (u ++ v) (u' ++ v') := by
-  sorry
+  have a := Derives.context [] v h₁
+  have b := Derives.context u' [] h₂
+  simp only [List.nil_append, List.append_nil] at a b
+  exact a.trans b
+
+/-- a single production application -/
+theorem Derives.prod {G : CFG} {h : String} {body : List Sym} (hp : (h, body) ∈ G.prods) :
+    G.Derives [.var h] body := by
+  have := Derives.step (u := []) (v := []) hp (.refl _)
+  simpa using this
+
+theorem genList_append {G : CFG} {u v : List Sym} {w₁ w₂ : List String}
+    (h₁ : G.GenList u w₁) (h₂ : G.GenList v w₂) : G.GenList (u ++ v) (w₁ ++ w₂) := by
+  induction u generalizing w₁ with
+  | nil => cases h₁; simpa using h₂
+  | cons s u ih =>
+    cases h₁ with
+    | cons hs hu =>
+      rw [List.cons_append, List.append_assoc]
+      exact .cons hs (ih hu)
+
+theorem genList_append_iff (G : CFG) (u v : List Sym) (w : List String) :
+    G.GenList (u ++ v) w ↔ ∃ w₁ w₂, w = w₁ ++ w₂ ∧ G.GenList u w₁ ∧ G.GenList v w₂ := by
+  constructor
+  · intro h
+    induction u generalizing w with
+    | nil => exact ⟨[], w, rfl, .nil, by simpa using h⟩
+    | cons s u ih =>
+      rw [List.cons_append] at h
+      cases h with
+      | @cons _ _ a b hs hu =>
+        obtain ⟨w₁, w₂, rfl, h1, h2⟩ := ih _ hu
+        exact ⟨a ++ w₁, w₂, by simp, .cons hs h1, h2⟩
+  · rintro ⟨w₁, w₂, rfl, h1, h2⟩
+    exact genList_append h1 h2
+
+theorem genList_singleton {G : CFG} {s : Sym} {w : List String} :
+    G.GenList [s] w ↔ G.Gen s w := by
+  constructor
+  · intro h
+    cases h with
+    | cons hs hu => cases hu; simpa using hs
+  · intro h
+    have := GenList.cons h .nil
+    simpa using this
+
+theorem genList_cons_iff {G : CFG} {s : Sym} {u : List Sym} {w : List String} :
+    G.GenList (s :: u) w ↔ ∃ w₁ w₂, w = w₁ ++ w₂ ∧ G.Gen s w₁ ∧ G.GenList u w₂ := by
+  constructor
+  · intro h
+    cases h with
+    | cons hs hu => exact ⟨_, _, rfl, hs, hu⟩
+  · rintro ⟨w₁, w₂, rfl, h1, h2⟩
+    exact .cons h1 h2
+
+theorem genList_nil_iff {G : CFG} {w : List String} : G.GenList [] w ↔ w = [] := by
+  constructor
+  · intro h; cases h; rfl
+  · rintro rfl; exact .nil
+
+theorem gen_ter_iff {G : CFG} {t : String} {w : List String} : G.Gen (.ter t) w ↔ w = [t] := by
+  constructor
+  · intro h; cases h; rfl
+  · rintro rfl; exact .ter t
+
+theorem gen_var_iff {G : CFG} {h : String} {w : List String} :
+    G.Gen (.var h) w ↔ ∃ body, (h, body) ∈ G.prods ∧ G.GenList body w := by
+  constructor
+  · intro hg; cases hg with
+    | var hp hl => exact ⟨_, hp, hl⟩
+  · rintro ⟨body, hp, hl⟩; exact .var hp hl
+
+theorem genList_map_ter (G : CFG) (w : List String) : G.GenList (w.map .ter) w := by
+  induction w with
+  | nil => exact .nil
+  | cons a w ih => exact GenList.cons (w₁ := [a]) (.ter a) ih
+
+mutual
+theorem gen_derives {G : CFG} : ∀ {s : Sym} {w : List String}, G.Gen s w → G.Derives [s] (w.map .ter)
+  | _, _, .ter t => .refl _
+  | _, _, .var hp hl => (Derives.prod hp).trans (genList_derives hl)
+theorem genList_derives {G : CFG} : ∀ {u : List Sym} {w : List String},
+    G.GenList u w → G.Derives u (w.map .ter)
+  | _, _, .nil => .refl _
+  | _, _, .cons (s := s) (u := u) hs hu => by
+    have := Derives.append (gen_derives hs) (genList_derives hu)
+    simpa using this
+end
+
+theorem derives_genList {G : CFG} {a b : List Sym} (h : G.Derives a b) :
+    ∀ w : List String, b = w.map .ter → G.GenList a w := by
+  induction h with
+  | refl _ => rintro w rfl; exact genList_map_ter G w
+  | @step u v body w' h hp _ ih =>
+    intro w hw
+    have := ih w hw
+    rw [genList_append_iff] at this
+    obtain ⟨w₁₂, w₃, rfl, h12, h3⟩ := this
+    rw [genList_append_iff] at h12
+    obtain ⟨w₁, w₂, rfl, h1, h2⟩ := h12
+    exact genList_append (genList_append h1 (genList_singleton.2 (.var hp h2))) h3
+
+theorem genList_iff_derives (G : CFG) (u : List Sym) (w : List String) :
+    G.GenList u w ↔ G.Derives u (w.map .ter) :=
+  ⟨genList_derives, fun h => derives_genList h w rfl⟩
 
 /-- a derivation of a terminal word from `u ++ v` splits -/
 theorem derives_append_ter (G : CFG) (u v : List Sym) (w : List String)
     (h : G.Derives (u ++ v) (w.map .ter)) :
     ∃ w₁ w₂, w = w₁ ++ w₂ ∧ G.Derives u (w₁.map .ter) ∧ G.Derives v (w₂.map .ter) := by
-  sorry
-
-theorem genList_iff_derives (G : CFG) (u : List Sym) (w : List String) :
-    G.GenList u w ↔ G.Derives u (w.map .ter) := by
-  sorry
+  rw [← genList_iff_derives, genList_append_iff] at h
+  obtain ⟨w₁, w₂, e, h1, h2⟩ := h
+  exact ⟨w₁, w₂, e, genList_derives h1, genList_derives h2⟩
 
 theorem gen_iff_derives (G : CFG) (s : Sym) (w : List String) :
     G.Gen s w ↔ G.Derives [s] (w.map .ter) := by
-  sorry
+  rw [← genList_iff_derives, genList_singleton]
 
 theorem lang_iff_gen (G : CFG) (w : List String) :
     G.Lang w ↔ ∃ s, G.start = some s ∧ G.Gen (.var s) w := by
-  sorry
+  unfold Lang
+  simp only [gen_iff_derives]
 
-theorem genList_append {G : CFG} {u v : List Sym} {w₁ w₂ : List String}
-    (h₁ : G.GenList u w₁) (h₂ : G.GenList v w₂) : G.GenList (u ++ v) (w₁ ++ w₂) := by
-  sorry
-
-theorem genList_append_iff (G : CFG) (u v : List Sym) (w : List String) :
-    G.GenList (u ++ v) w ↔ ∃ w₁ w₂, w = w₁ ++ w₂ ∧ G.GenList u w₁ ∧ G.GenList v w₂ := by
-  sorry
-
-/-- `Gen` only depends on the set of productions -/
-theorem gen_congr (G H : CFG) (hp : ∀ p, p ∈ G.prods ↔ p ∈ H.prods) (s : Sym) (w : List String) :
-    G.Gen s w ↔ H.Gen s w := by
-  sorry
+mutual
+theorem gen_mono_aux {G H : CFG} (hp : ∀ p, p ∈ G.prods → p ∈ H.prods) :
+    ∀ {s : Sym} {w : List String}, G.Gen s w → H.Gen s w
+  | _, _, .ter t => .ter t
+  | _, _, .var h hl => .var (hp _ h) (genList_mono_aux hp hl)
+theorem genList_mono_aux {G H : CFG} (hp : ∀ p, p ∈ G.prods → p ∈ H.prods) :
+    ∀ {u : List Sym} {w : List String}, G.GenList u w → H.GenList u w
+  | _, _, .nil => .nil
+  | _, _, .cons hs hu => .cons (gen_mono_aux hp hs) (genList_mono_aux hp hu)
+end
 
 /-- more productions, more words -/
 theorem gen_mono (G H : CFG) (hp : ∀ p, p ∈ G.prods → p ∈ H.prods) (s : Sym) (w : List String)
-    (h : G.Gen s w) : H.Gen s w := by
-  sorry
+    (h : G.Gen s w) : H.Gen s w := gen_mono_aux hp h
+
+theorem genList_mono (G H : CFG) (hp : ∀ p, p ∈ G.prods → p ∈ H.prods) (u : List Sym)
+    (w : List String) (h : G.GenList u w) : H.GenList u w := genList_mono_aux hp h
+
+/-- `Gen` only depends on the set of productions -/
+theorem gen_congr (G H : CFG) (hp : ∀ p, p ∈ G.prods ↔ p ∈ H.prods) (s : Sym) (w : List String) :
+    G.Gen s w ↔ H.Gen s w :=
+  ⟨gen_mono G H (fun p => (hp p).1) s w, gen_mono H G (fun p => (hp p).2) s w⟩
+
+theorem genList_congr (G H : CFG) (hp : ∀ p, p ∈ G.prods ↔ p ∈ H.prods) (u : List Sym)
+    (w : List String) : G.GenList u w ↔ H.GenList u w :=
+  ⟨genList_mono G H (fun p => (hp p).1) u w, genList_mono H G (fun p => (hp p).2) u w⟩
 
 end CFG
 end Pfl
